@@ -369,6 +369,12 @@ def _r5(ctx, rep, vo, cfg):
             if c and ("elapsed_seconds" in c[0] or "elapsed_seconds" in c[2]):
                 n_cd += 1
                 o = oriented(c, "reset_elapsed_seconds") or oriented(c, "placed_elapsed_seconds")
+                if o is not None:
+                    # a threshold that is provably never below the trade's own seconds (the larger of it and some
+                    # floor) still refuses everything the trade's seconds refuse
+                    base = _never_below(ctx, vo, o[2])
+                    if base is not None:
+                        o = (o[0], o[1], base)
                 good = o is not None and o[1] == "<" and o[2] in ("order.trade.reset_seconds",
                                                                   "order.trade.place_reset_seconds")
                 pair = o is not None and ((o[0].startswith("reset_") and o[2].endswith(".reset_seconds")) or
@@ -491,3 +497,43 @@ MUTANTS = [
          new="        if package_type == OrderPackageType.CANCEL:\n            # strategy.validate_order", expect=["R5"],
          why="placements no longer pass validate_order"),
 ]
+
+
+def _never_below(ctx, caller, text):
+    """`text` is a call `g(.., order.trade.<x>seconds, ..)` of a package function every return of which is that
+    parameter itself or a value tested to be greater (or not smaller) than it on the way: returns the
+    argument's text, else None"""
+    from sa.kinds import guard_pairs, holds
+    try:
+        e = ast.parse(text, mode="eval").body
+    except SyntaxError:
+        return None
+    if not isinstance(e, ast.Call) or e.keywords:
+        return None
+    callees, conf = ctx.res.resolve_call(e, caller)
+    if len(callees) != 1:
+        return None
+    g = list(callees)[0]
+    params = [p_ for p_ in g.params if p_ not in ("self", "cls")]
+    if len(params) != len(e.args):
+        return None
+    hit = [(p_, utext(a)) for p_, a in zip(params, e.args) if utext(a) in ("order.trade.reset_seconds", "order.trade.place_reset_seconds")]
+    if len(hit) != 1:
+        return None
+    pn, arg = hit[0]
+    cfg = ctx.cfg(g)
+    rets = [n for n in cfg.live_nodes() if n.kind == "return"]
+    if not rets or any(isinstance(x, (ast.Assign, ast.AugAssign)) and pn in utext(x) for x in ast.walk(g.node) if isinstance(x, (ast.Assign, ast.AugAssign))):
+        return None
+    # the function always returns explicitly
+    if cfg.exit in cfg.reachable(cfg.entry, blocked_nodes={n.id for n in rets}):
+        return None
+    for n in rets:
+        v = utext(n.ast.value) if n.ast.value is not None else "None"
+        if v == pn:
+            continue
+        gs = guard_pairs(cfg, n.id)
+        if holds(gs, "%s > %s" % (v, pn)) or holds(gs, "%s >= %s" % (v, pn)):
+            continue
+        return None
+    return arg
